@@ -116,6 +116,8 @@ EditReasons(r) ==
                                   ELSE {"lib-edit-is-not-the-configured-expansion"}))
           : k \in 1..Len(r.lib) }
     \cup (IF OrderedDisjoint(lib) THEN {} ELSE {"lib-edits-overlap"})
+    \* a fixer handed over by reference (`replace_all(&matcher, &fixer)`) is the same fixer: same ranges, same texts
+    \cup (IF [k \in 1..Len(r.lib_by_ref) |-> AsEdit(r.lib_by_ref[k])] = lib THEN {} ELSE {"lib-fixer-by-reference-differs"})
     \* r.raw: the edit of every match of the non-reentrant traversal, in its order.  Node::replace_all returns the edits of
     \* that list that do not start before the end of the one returned before them (Replace!FilterOverlap): edits that merely
     \* touch are both returned, and without expansion every match has its edit
